@@ -19,6 +19,8 @@ package rep
 //@ struct context
 //@   close_token closeQ when closed
 //@   guarded_by s.Mutex: closed recvWait recvExpire recvPipe sendExpire bestEffort backtrace
+//@   nullable: recvPipe
+//@   invariant isnil(backtrace) || recvPipe != nil
 //@   immutable: s closeQ
 //@
 //@ func NewProtocol
